@@ -78,6 +78,8 @@ def run_case(case):
     tol = bootstrap.TOL
     try:
         model = dsl.build_lcm_model(desc)
+        if case["index"] % 2 == 0:
+            pipeline.run_alias_sibling(model, counters=cnt)
         f, tmpl = pipeline.get_lcm_function(model, "solve")
         _, tmpl2 = pipeline.get_lcm_function(model, "simulate")
     except Exception as e:  # noqa: BLE001
